@@ -377,6 +377,8 @@ class HistoryH(_Base):
                 if sch == 'SVDMimo' and hist != 'rechannel':
                     continue
                 out.append(dict(scheme=sch, Nr=nr, Nt=nt, hist=hist))
+        out.append(dict(scheme='MRT', Nr=1, Nt=2, hist='rechannel'))
+        out.append(dict(scheme='Alamouti', Nr=2, Nt=2, hist='rechannel'))
         if tier != 'quick':
             out.append(dict(scheme='GMDMimo', Nr=2, Nt=2, hist='rechannel'))
         return out
